@@ -26,6 +26,12 @@ CONSTANTS Programs,      \* set of [funcs : Seq(Seq(instr)), glyph : Seq(instr)]
           StackMax, CallMax, Limit, MaxRun,
           NPoints, NCvt    \* points of the glyph incl. phantom points, CVT entries
 
+\* 32-bit two's complement addition without leaving the range on the way (TLC's integers are 32-bit too)
+I32Max == 2147483647
+I32Min == -2147483647 - 1
+AddW(a, b) == IF a >= 0 /\ b >= 0 /\ a > I32Max - b THEN (a - I32Max - 1) + (b - I32Max - 1)
+              ELSE IF a < 0 /\ b < 0 /\ a < I32Min - b THEN (a + I32Max + 1) + (b + I32Max + 1)
+              ELSE a + b
 VARIABLES p, cur, pc, stack, calls, bj, lc, loop, steps, status
 vars == <<p, cur, pc, stack, calls, bj, lc, loop, steps, status>>
 
@@ -85,7 +91,7 @@ Exec ==
          [] ins.op = "DUP" -> IF stack = <<>> THEN Halt(S0, "ValueStackUnderflow")
                               ELSE IF full THEN Halt(S0, "ValueStackOverflow") ELSE [next EXCEPT !.stack = Append(stack, Top)]
          [] ins.op = "ADD" -> IF Len(stack) < 2 THEN Halt(S0, "ValueStackUnderflow")
-                              ELSE [next EXCEPT !.stack = Append(Pop2, stack[Len(stack) - 1] + Top)]
+                              ELSE [next EXCEPT !.stack = Append(Pop2, AddW(stack[Len(stack) - 1], Top))]
          [] ins.op = "JSELF" -> IF full THEN Halt(S0, "ValueStackOverflow") ELSE Halt(S0, "InvalidJump")      \* PUSH 0, JMPR
          [] ins.op = "JMPR" -> IF full THEN Halt(S0, "ValueStackOverflow") ELSE Jump(S0, ins.arg)           \* PUSHW off, JMPR
          [] ins.op \in {"JROT", "JROF"} ->                                                              \* PUSHW off, SWAP, JROx
